@@ -405,12 +405,20 @@ where
 
             sponge.absorb(&to_bytes!(&commitment.root).map_err(|_| Error::TranscriptError)?);
 
+            // The opened combinations of rows must have the length of a row
+            if proof.opening.v.len() != n_cols {
+                return Err(Error::InvalidCommitment);
+            }
+
             let out = if vk.check_well_formedness() {
                 if proof.well_formedness.is_none() {
                     return Err(Error::InvalidCommitment);
                 }
                 let tmp = &proof.well_formedness.as_ref();
                 let v = tmp.unwrap();
+                if v.len() != n_cols {
+                    return Err(Error::InvalidCommitment);
+                }
                 let r = sponge.squeeze_field_elements::<F>(n_rows);
                 // Upon sending `v` to the Verifier, add it to the sponge. The claim is that v = r.M.
                 sponge.absorb(&v);
